@@ -3,7 +3,10 @@
 The unit of fault is the bytes of one write() call (one frame, optionally CANCEL-prefixed).
 Fates:  ["d"] deliver | ["x"] drop | ["2"] duplicate | ["c", bit, ...] detectable corruption
         (flip 1..3 bits of the UNSTUFFED frame, re-stuff) | ["s", seconds] stall this unit
-        (later units cannot overtake it: the line never reorders).
+        (later units cannot overtake it: the line never reorders) | ["L", k] late duplicate: the
+        unit is delivered normally and a copy of it once more after k (1..6) further units of the
+        same direction have been delivered - only for ACK/NAK frames travelling to the host (for
+        anything else it degrades to a plain back-to-back duplicate).
 Each delivery is its own loop callback and no two deliveries share a loop iteration."""
 from __future__ import annotations
 
@@ -45,6 +48,7 @@ class Direction:
         self.last_delivery = 0.0
         self.sink = None  # callable(bytes) at the receiving end
         self.hits = []  # (ordinal, fate kind, frame kind)
+        self.late = []  # [remaining units, data] copies waiting to be delivered late
 
     def write(self, data: bytes):
         line = self.line
@@ -76,6 +80,11 @@ class Direction:
             return
         delay = LATENCY
         out = [data]
+        if kind == "L":
+            if self.name == "n2h" and fk in ("ACK", "NAK"):
+                self.late.append([max(1, min(6, int(fate[1]))), data])
+            else:
+                out = [data, data]
         if kind == "2":
             out = [data, data]
         elif kind == "c":
@@ -101,6 +110,33 @@ class Direction:
         line.last_iter = loop.iterations
         if self.sink is not None:
             self.sink(data)
+        if self.late and data is not None:
+            due = []
+            for item in self.late:
+                if item[1] is data and item[0] > 0 and item[2:] == []:
+                    item.append("armed")  # the original itself has just been delivered: start counting after it
+                    continue
+                if item[2:]:
+                    item[0] -= 1
+                    if item[0] <= 0:
+                        due.append(item)
+            for item in due:
+                self.late.remove(item)
+                when = max(self.last_delivery + 1e-6, loop.time() + 1e-6)
+                self.last_delivery = when
+                loop.call_at(when, self._deliver_late, item[1])
+
+    def _deliver_late(self, data):
+        line = self.line
+        loop = line.loop
+        if line.dead:
+            return
+        if loop.iterations == line.last_iter:
+            loop.call_soon(self._deliver_late, data)
+            return
+        line.last_iter = loop.iterations
+        if self.sink is not None:
+            self.sink(bytes(data))
 
 
 class Line:
